@@ -16,6 +16,7 @@ CONSTANTS
   MaxStack = 2
   MinParen = TRUE
   TwoPhase = FALSE
+  Rnd = FALSE
 INIT Init
 NEXT Next
 INVARIANT EmitInv
